@@ -26,6 +26,9 @@ func genHistory(rt *rapid.T, p *plan, dynamic bool) {
 		if p.Sentinels > 1 {
 			kinds = append(kinds, "view")
 		}
+		if p.Mode != "replicaonly" {
+			kinds = append(kinds, "trappush", "trappush", "trappush")
+		}
 	}
 	truth := p.Master
 	anchorDown := map[int]bool{}
@@ -36,6 +39,12 @@ func genHistory(rt *rapid.T, p *plan, dynamic bool) {
 		ev.Sentinel = rapid.IntRange(0, p.Sentinels-1).Draw(rt, "evSentinel")
 		ev.Node = rapid.IntRange(0, p.Nodes-1).Draw(rt, "evNode")
 		switch ev.Kind {
+		case "trappush":
+			// sprung by the client's own ROLE query during the refresh the event provokes: every sentinel
+			// learns and announces at once, so the push reaches the client while that refresh is running
+			ev.Node = (truth + rapid.IntRange(1, p.Nodes-1).Draw(rt, "newMaster")) % p.Nodes
+			ev.Stale, ev.Silent = make([]int, p.Sentinels), make([]bool, p.Sentinels)
+			truth = ev.Node
 		case "failover", "trapflip":
 			ev.Node = (truth + rapid.IntRange(1, p.Nodes-1).Draw(rt, "newMaster")) % p.Nodes
 			for s := 0; s < p.Sentinels; s++ {
@@ -214,10 +223,30 @@ func c23Check(c *stat.Collector, rt stat.Fataler, p plan, rec *runRec) (nt bool,
 		}
 		return math.MaxInt64
 	}
-	failovers, traps := len(rec.Truth)-1, 0
+	failovers, traps, during := len(rec.Truth)-1, 0, 0
 	for _, tc := range rec.Truth {
-		if tc.Trap {
+		if tc.During {
+			during++
+		} else if tc.Trap {
 			traps++
+		}
+	}
+	cl["failover-announced-during-refresh(sprung-by-ROLE-query)"] = during > 0
+	for _, tc := range rec.Truth {
+		for _, ps := range o.pushes {
+			if tc.During && ps.AtUs == tc.AtUs && ps.New == tc.Master {
+				cl["switch-master-delivered-during-refresh"] = true
+			}
+		}
+	}
+	for node, byKind := range o.roles {
+		for k, as := range byKind {
+			for i := 1; i < len(as); i++ {
+				if as[i-1].Role == wantRole(k) && as[i].Role != wantRole(k) && (k == 'm' || k == 'r') {
+					cl["recheck-of-adopted-node-answers-wrong-role"] = true
+					_ = node
+				}
+			}
 		}
 	}
 	cl["failovers>=1"] = failovers >= 1
@@ -256,25 +285,38 @@ func c23Check(c *stat.Collector, rt stat.Fataler, p plan, rec *runRec) (nt bool,
 		where := fmt.Sprintf("%s (op %d %s, %s traffic, call started at %dus) received by %s on a connection of option set %q at %dus",
 			u.Ev.Argv, oi, op.Kind, map[byte]string{'m': "primary", 'r': "replica"}[want], r.StartUs, u.Ev.Server, string(u.Kind), u.Ev.At)
 		verified := false
-		var last *roleAns
 		rescued := false
-		for i := range answers {
-			a := answers[i]
+		lastAt := int64(-1)
+		for _, a := range answers {
 			if a.AtUs <= u.Ev.At && a.Role == wantRole(want) {
 				verified = true
 			}
-			if a.AtUs < r.StartUs {
-				last = &answers[i]
+			if a.AtUs < r.StartUs && a.AtUs > lastAt {
+				lastAt = a.AtUs
 			}
 			if a.AtUs >= r.StartUs && a.AtUs <= u.Ev.At && a.Role == wantRole(want) {
 				rescued = true
 			}
 		}
+		// answers of one virtual instant are ties: the instant counts as "wrong role" only if no answer of
+		// that instant had the right role (in SendToReplicas mode a refresh abandons a still running
+		// replica check when the master check fails; that check may finish, on its own connection, in
+		// the same instant in which a later round verified and adopted the node)
+		wrongAtLast, rightAtLast := "", false
+		for _, a := range answers {
+			if a.AtUs == lastAt {
+				if a.Role == wantRole(want) {
+					rightAtLast = true
+				} else {
+					wrongAtLast = a.Role
+				}
+			}
+		}
 		if !verified {
 			c.Fail(rt, "C23.role-verified", fmt.Sprintf("%s although that node never answered ROLE as %s on such a connection before (answers: %v)", where, wantRole(want), answers), p)
 		}
-		if last != nil && last.Role != wantRole(want) && !rescued {
-			c.Fail(rt, "C23.no-traffic-after-wrong-role", fmt.Sprintf("%s although the node's latest ROLE answer before the call started was %q at %dus and it gave no %q answer in between", where, last.Role, last.AtUs, wantRole(want)), p)
+		if wrongAtLast != "" && !rightAtLast && !rescued {
+			c.Fail(rt, "C23.no-traffic-after-wrong-role", fmt.Sprintf("%s although the node's latest ROLE answer before the call started was %q at %dus and it gave no %q answer in between", where, wrongAtLast, lastAt, wantRole(want)), p)
 		}
 		if want == 'm' {
 			reported := false
@@ -285,6 +327,36 @@ func c23Check(c *stat.Collector, rt stat.Fataler, p plan, rec *runRec) (nt bool,
 			}
 			if !reported {
 				c.Fail(rt, "C23.reported-as-master", fmt.Sprintf("%s although no sentinel reply or event had named that node as master before", where), p)
+			}
+			// every report the client received is followed by a ROLE query of the named node (also when the client
+			// is already on that node): after the latest report that named this node strictly before the command,
+			// the node must have answered ROLE as master. A report on a connection that went down at that very
+			// instant may not have reached the client; runs slowed by the dial-storm brake spread one refresh
+			// over several instants and are not judged.
+			var latest *masterReport
+			for i := range o.reports {
+				rp := &o.reports[i]
+				if rp.Node != u.Ev.Server || rp.AtUs >= u.Ev.At {
+					continue
+				}
+				if at, closed := o.closeAt[rp.Server][rp.Conn]; closed && at <= rp.AtUs {
+					continue
+				}
+				if latest == nil || rp.AtUs >= latest.AtUs {
+					latest = rp
+				}
+			}
+			if latest != nil && rec.DialStorms == 0 {
+				cl["role-after-latest-report-checked"] = true
+				asked := false
+				for _, a := range answers {
+					if a.Role == "master" && a.AtUs >= latest.AtUs && a.AtUs <= u.Ev.At {
+						asked = true
+					}
+				}
+				if !asked {
+					c.Fail(rt, "C23.role-verified-after-report", fmt.Sprintf("%s: the latest sentinel report naming that node as master reached the client at %dus (%s on %s) and the node has not answered ROLE as master to the client since (answers: %v)", where, latest.AtUs, latest.Via, latest.Server, answers), p)
+				}
 			}
 		}
 	}
@@ -361,7 +433,7 @@ func c23Check(c *stat.Collector, rt stat.Fataler, p plan, rec *runRec) (nt bool,
 }
 
 func TestVerif_C23_FollowMaster(t *testing.T) {
-	c := stat.For("C23", "follow-master-"+queueLabel()).Rule("sentinel client in a synctest bubble against the sentinel personality of the fake server: 1-3 sentinels (each with its own, possibly stale or wrong view; one anchor sentinel learns every failover after at most 2 answers), 2-4 data nodes with true roles; history of failovers (per sentinel: announced at once / after n more answers / never, with or without +switch-master; promoted node still answering ROLE slave for 0-2 queries), failovers sprung right after a sentinel answered (role flip between the answer and the client's ROLE check), view changes, +sdown/-sdown/+slave/+reboot/+sentinel events, sentinel and data connection kills, refused dials; client modes primary / SendToReplicas(generated predicate) / ReplicaOnly, multiplex, RESP2, retry; user traffic (Do, DoMulti, DoCache, DoMultiCache, DoStream, DoMultiStream, blocking, Receive; unique keys) placed on and around the events plus final probes after all views converged; every connection is tagged with the option set it was dialled with. Oracle from the per-node log: each user command reached a node that had answered ROLE with the role its traffic kind needs on a connection of that option set, whose latest such answer before the call started was not the wrong role, and (primary) that a sentinel reply or event had named as master; 5 s after a delivered +switch-master primary traffic is only on the announced master until the truth changes again, and final probes reach it. Non-trivial = the client saw a wrong-role ROLE answer or the plan had >=2 failovers, and user commands were checked")
+	c := stat.For("C23", "follow-master-"+queueLabel()).Rule("sentinel client in a synctest bubble against the sentinel personality of the fake server: 1-3 sentinels (each with its own, possibly stale or wrong view; one anchor sentinel learns every failover after at most 2 answers), 2-4 data nodes with true roles; history of failovers (per sentinel: announced at once / after n more answers / never, with or without +switch-master; promoted node still answering ROLE slave for 0-2 queries), failovers sprung right after a sentinel answered (role flip between the answer and the client's ROLE check, also of the node the client is already on), failovers sprung by the client's own ROLE query and announced by every sentinel while that refresh is still running (+switch-master arrives during a refresh), view changes, +sdown/-sdown/+slave/+reboot/+sentinel events, sentinel and data connection kills, refused dials; client modes primary / SendToReplicas(generated predicate) / ReplicaOnly, multiplex, RESP2, retry; user traffic (Do, DoMulti, DoCache, DoMultiCache, DoStream, DoMultiStream, blocking, Receive; unique keys) placed on and around the events plus final probes after all views converged; every connection is tagged with the option set it was dialled with. Oracle from the per-node log: each user command reached a node that had answered ROLE with the role its traffic kind needs on a connection of that option set, whose latest such answer before the call started was not the wrong role, and (primary) that a sentinel reply or event had named as master and that has answered ROLE as master since the latest such report received strictly before the command (also when the client was already on that node); 5 s after a delivered +switch-master primary traffic is only on the announced master until the truth changes again, and final probes reach it. Non-trivial = the client saw a wrong-role ROLE answer or the plan had >=2 failovers, and user commands were checked")
 	defer c.Flush()
 	defer singleP()()
 	rapid.Check(t, func(rt *rapid.T) {
